@@ -130,21 +130,33 @@ def cival(v):
     return "IOther"
 
 
-def chain_to_coq(c, r):
-    ms = clist(MODC[m] for m in c["mods"])
-    ps = clist(f"PVStr {cstr(p['s'])}" if "s" in p else "PVOther" for p in c["payloads"])
-    sur = "(" + clist(f"({cbytes(bytes(a))}, {cbytes(bytes(b))})" for a, b in c["sur"]) + " : list (list N * list N))"
+def cmods(mods):
+    return clist(MODC[m] for m in mods)
+
+
+def cpayloads(pls):
+    return "(" + clist(f"PVStr {cstr(p['s'])}" if "s" in p else "PVOther" for p in pls) + " : list pval)"
+
+
+def csur(sur):
+    return "(" + clist(f"({cbytes(bytes(a))}, {cbytes(bytes(b))})" for a, b in sur) + " : list (list N * list N))"
+
+
+def coutcome(r):
     if "exc" in r:
         if r.get("sigma"):
             tag = {"SigmaValueError": 1, "SigmaPlaceholderError": 2, "SigmaTypeError": 3}.get(r["exc"], 99)
-            out = f"(SigmaErr {tag})"
-        else:
-            out = "(Crash 1)"
-    else:
-        xs = [cival(v) for v in r["vals"]]
-        if any(x is None for x in xs): return None
-        out = "(Ok " + clist("(" + x + ")" for x in xs) + ")"
-    return f"({ms}, {ps}, {sur}, {out})"
+            return f"(SigmaErr {tag})"
+        return "(Crash 1)"
+    xs = [cival(v) for v in r["vals"]]
+    if any(x is None for x in xs): return None
+    return "(Ok " + clist("(" + x + ")" for x in xs) + ")"
+
+
+def chain_to_coq(c, r):
+    out = coutcome(r)
+    if out is None: return None
+    return f"({cmods(c['mods'])}, {cpayloads(c['payloads'])}, {csur(c['sur'])}, {out})"
 
 
 # ---- chain shapes, known findings, independent Python reference ---------------------------------
@@ -243,18 +255,100 @@ def stratum_chain(c, r):
     return "|".join(c["mods"]) or "(none)"
 
 
+# ---- suite pure: the modifiers leave their input values alone ---------------------------------------
+def bs_adjacent(s):
+    """C05 finding D10: the plain form of such a value does not re-parse to the same value"""
+    items = read_items(s)
+    for a, b in zip(items, items[1:]):
+        if a == ('L', '\\') and (b[0] == 'W' or b[1] in '*?\\'):
+            return True
+    return False
+
+
+def mk_pure(rng, mods, payloads):
+    c = mk(rng, mods, payloads)
+    if c["sur"]:   # one surrounding per prefix length 0..5 (every view is judged against all of them)
+        c["sur"] = [rng.choice(c["sur"][6 * a:6 * a + 6]) for a in range(6)]
+    if any("s" in p and bs_adjacent(p["s"]) for p in c["payloads"]):
+        c["skip_roundtrip"] = True
+    return c
+
+
+def gen_pure(tier, rng):
+    out = []
+    quick = tier == "quick"
+    w1 = [""] + TOK
+    w2 = ["".join(t) for t in itertools.product(TOK, repeat=2)]
+    w3 = ["".join(t) for t in itertools.product(TOK, repeat=3)]
+    for w in w1:
+        for ch in CHAINS + CHAINS_C:
+            out.append(mk_pure(rng, ch, [{"s": w}]))
+    for w in (rng.sample(w2, 16) if quick else w2 + rng.sample(w3, 150)):
+        for ch in CHAINS:
+            out.append(mk_pure(rng, ch, [{"s": w}]))
+    for w in HOSTILE + HOSTILE_STR:
+        for ch in rng.sample(CHAINS, 2 if quick else 6) + rng.sample(CHAINS_C + ODD_CHAINS, 1 if quick else 4):
+            out.append(mk_pure(rng, ch, [{"s": w}]))
+    for ch in CHAINS + [[], ["contains"]]:
+        out.append(mk_pure(rng, ch, [{"o": 5}]))
+        out.append(mk_pure(rng, ch, [{"s": "ab"}, {"s": "Zc"}]))
+        out.append(mk_pure(rng, ch, [{"s": "ab"}, {"s": "ab"}]))
+    for _ in range(40 if quick else 1500):
+        n = rng.choice([1, 2, 3, 4, 5, 7, 12, 25])
+        out.append(mk_pure(rng, rng.choice(CHAINS * 3 + CHAINS_C), [{"s": rand_payload(rng, n)}]))
+    return out
+
+
+def pure_to_coq(c, r):
+    if "exc" in r: return None
+    vs = []
+    for name, mods, pls, res in r["views"]:
+        o = coutcome(res)
+        if o is None: return None
+        vs.append(f"({cmods(mods)}, {cpayloads(pls)}, {o})")
+    return f"({csur(c['sur'])}, {clist(vs)})"
+
+
+def known_pure(c, r):
+    if "exc" in r: return None
+    for name, mods, pls, res in r["views"]:   # D9 shows in every view in which the utf16 modifier accepted the value
+        k = known_chain({"mods": mods}, res)
+        if k: return k
+    return None
+
+
+def py_oracle_pure(c, r):
+    if "exc" in r: return "harness failure: " + str(r)
+    for name, mods, pls, res in r["views"]:
+        msg = py_oracle_chain({"mods": mods, "payloads": pls, "sur": c["sur"]}, res)
+        if msg: return f"view {name}: {msg}"
+    return None
+
+
+def mutate_pure(c, rng):
+    return [mk_pure(rng, m["mods"], m["payloads"]) for m in mutate_chain(c, rng)]
+
+
 REQ = ["Base.Chars", "Base.Outcome", "Model.SString", "Spec.Items", "Spec.Utf", "Spec.B64", "Model.Enc", "Run.C04run"]
 PROPERTY = Property(
     pid="C04", props_file="Props/C04.v",
     suites=[Suite("chain", gen_chain, "run_chain", REQ, "judge_chain", chain_to_coq, known=known_chain,
-                  mutate=mutate_chain, py_oracle=py_oracle_chain, stratum=stratum_chain, shard=150)],
+                  mutate=mutate_chain, py_oracle=py_oracle_chain, stratum=stratum_chain, shard=150),
+            Suite("pure", gen_pure, "run_pure", REQ, "judge_pure", pure_to_coq, known=known_pure,
+                  mutate=mutate_pure, py_oracle=py_oracle_pure, stratum=stratum_chain, shard=100)],
     rule="payloads over the tokens {a Z - \\* é € U+0100 U+2A00} exhaustive up to 2 tokens (quick) / 3 tokens (thorough) on the 11 chains "
-         "[wide|utf16be|utf16]?[base64|base64offset]?, one token more exhaustively for base64offset (thorough: and wide|base64offset) and sampled for the others, a sample with |contains, 70 hostile characters/strings (wildcards, "
+         "[wide|utf16be|utf16]?[base64|base64offset]?, one token more exhaustively for base64offset (thorough: and wide|base64offset) and sampled for the others, "
+         "a sample with |contains, 70 hostile characters/strings (wildcards, "
          "backslashes, surrogates, astral characters whose UTF-16 bytes are valid UTF-8, BOM, padding characters) on the 11 chains plus 8 of (quick) / all (thorough) 27 further chains incl. |contains and odd orders, "
          "non-string values, value lists, random payloads up to 40 tokens; for base64offset every case carries 36 surroundings "
          "(prefix length 0..5 x suffix length 0..5, bytes random / boundary / spaces / taken from the payload). "
-         "non-trivial = non-empty string payload under a non-empty chain; distinct by case hash",
+         "Suite pure: for a subset of these (all single tokens x 22 chains, two/three-token words, the hostile strings, lists, random) the chain is observed eight ways - "
+         "from_mapping, original_value afterwards, to_plain() + from_mapping again, two detection items over the same SigmaString objects, those objects afterwards, "
+         "the same object twice in one value list, the same modifier object applied twice - and every observation must equal a fresh application (model) and satisfy the specification. "
+         "non-trivial = non-empty string payload under a non-empty chain; distinct by (suite, case hash)",
     assumptions=["base64.b64encode, str.encode('utf-8'/'utf-16le'/'utf-16be') and bytes.decode('utf-8') of CPython are modelled by "
                  "Model.Enc.b64 / py_encode / utf8_dec; the statement about them is validated by the correspondence runs only",
-                 "chains outside [wide|utf16be|utf16]?[base64|base64offset]?[contains]? are compared with the model only (the property is silent about them)"],
+                 "chains outside [wide|utf16be|utf16]?[base64|base64offset]?[contains]? are compared with the model only (the property is silent about them)",
+                 "purity (a modifier does not change the value object it is applied to) is a property of the Python objects; the model is a pure function, so it is "
+                 "established for the real code by the correspondence suite 'pure' only; the to_plain() reload view is skipped for payloads in the class of C05's finding D10"],
 )
